@@ -232,6 +232,7 @@ def check(plan, r):
         elif e.f == "C_SetAttributeValue" and isinstance(e.op.get("o"), str) and e.ok:
             for x in e.op["tmpl"]:
                 if x[1] == "x": writes.setdefault((e.op["o"], x[0]), []).append((e.inv, e.retn, bytes.fromhex(x[2]), e))
+    c15.writes_all = writes; c15.events_all = evs
     def destroyed_before(ref, n): return any(d.ok and d.retn < n for d in destroys.get(ref, []))
     def destroy_started_before(ref, n): return any(d.inv < n for d in destroys.get(ref, []))
     def candidates(ref, typ, inv, retn):
